@@ -15,6 +15,7 @@
 #include <pistache/stream.h>
 
 #include <iterator>
+#include <limits>
 #include <optional>
 #include <unordered_map>
 
@@ -68,8 +69,12 @@ namespace Pistache::Http
                         if (!isdigit(str[i]))
                             throw std::invalid_argument("Invalid conversion");
 
+                        const int digit = str[i] - '0';
+                        if (ret > (std::numeric_limits<int>::max() - digit) / 10)
+                            throw std::invalid_argument("Invalid conversion, value too large");
+
                         ret *= 10;
-                        ret += str[i] - '0';
+                        ret += digit;
                     };
 
                     return ret;
